@@ -862,7 +862,15 @@ class Exec:
             # numpy in-place operator: the existing array object is overwritten (visible through every alias)
             vf = v.cur()
             if cur.view_of is not None:
-                raise OutOfSubset("in-place operator on a view")
+                # in-place operator on a view: the base array is overwritten through the view.  The exact new
+                # contents are not modelled (havoc); the write itself is what frame conditions need to see.
+                base = cur.view_of[0]
+                hv = self.fresh_var("havoc")
+                base._fn = (lambda idx, hv=hv: tm.app("havoc", (hv,) + tuple(idx), tm.R))
+                base.version += 1
+                self.note_write(base)
+                self.ghost.setdefault("view_writes", []).append(getattr(base, "name", "array"))
+                return
             cur.store(lambda idx: tm.TRUE, vf)
             self.note_write(cur)
             if isinstance(st.target, ast.Name):
